@@ -137,6 +137,27 @@ Section Region.
     - rewrite <- C2, slice_length. fold L. lia.
   Qed.
 
+  (* any chunking by the segment size: a full-segment reads followed by one read of any length *)
+  Lemma tu_reads_region lastlen : forall a j,
+    (j + a) * seg <= fso + L -> (j + a) * seg + lastlen <= length region ->
+    concat (tu_reads (tu_at (j * seg)) (repeat seg a ++ [lastlen])) = slice (j * seg) ((j + a) * seg + lastlen) region.
+  Proof.
+    induction a as [|a IH]; intros j H1 H2.
+    - cbn [repeat app tu_reads]. rewrite Nat.add_0_r in *.
+      destruct (tu_read_region j lastlen) as [Hout _]; [lia|lia|].
+      destruct (tu_read (tu_at (j * seg)) lastlen) as [d t']. cbn [fst] in Hout. subst d.
+      cbn [tu_reads concat]. apply app_nil_r.
+    - cbn [repeat app tu_reads].
+      assert ((j + 1) * seg <= (j + S a) * seg) by (apply Nat.mul_le_mono_r; lia).
+      destruct (tu_read_region j seg) as [Hout Hst]; [lia|lia|].
+      destruct (tu_read (tu_at (j * seg)) seg) as [d t']. cbn [fst snd] in Hout, Hst. subst d.
+      rewrite Hst by lia. cbn [concat].
+      replace (j * seg + seg) with (S j * seg) by lia.
+      rewrite IH by (replace (S j + a) with (j + S a) by lia; assumption).
+      replace (S j + a) with (j + S a) by lia.
+      apply slice_adj; lia.
+  Qed.
+
   (* the push_segment loop: n0 segments, all of size seg except the last (lastlen) *)
   Variables (p : enc) (st n0 lastlen : nat).
   Hypothesis Hp_seg : e_seg p = seg.
